@@ -22,7 +22,7 @@ class C27(Prop):
     LEVEL = "proof"
     MAX_WORKERS = 8
     CASE_TIMEOUT = 60
-    SHARD_TIMEOUT = 1500
+    SHARD_TIMEOUT = 400
     TECHNIQUE = ("Coq proof by induction over event traces of a transition system of the polling protocol + "
                  "vm_compute trace acceptance against the real SlurmConnector under a controlled event loop")
     RULE = ("1..6 concurrent SlurmConnector.run(job_name=..) calls with per-job run times (number of scheduler steps "
@@ -161,6 +161,21 @@ class C27(Prop):
                                        sleep0=lambda: real_sleep(0))
 
     def impl_run(self, case):
+        # cachebox 6.2.0 deadlocks when a garbage collection starts inside the factory it calls with its internal
+        # (non re-entrant) mutex held (`locks.setdefault_with(key, lambda: _AsyncLock(...))` in the async `cached`
+        # wrapper -> GC -> tp_traverse of the same object -> same mutex): the process then hangs in a futex and not
+        # even the per-case alarm can interrupt it (seen three times under load, native backtrace in
+        # design/notes/C27.md).  Automatic collection is therefore off while a case runs.
+        import gc
+
+        gc.disable()
+        try:
+            return self._impl_run(case)
+        finally:
+            gc.enable()
+            gc.collect()
+
+    def _impl_run(self, case):
         k = self.k
         asyncio = k.asyncio
         jobs = case["jobs"]
